@@ -29,6 +29,47 @@ def f32(x):
     return struct.unpack("<f", struct.pack("<f", x))[0]
 
 
+def eval_f32(e, env):
+    """the value of a subset expression when every float operation is rounded to single precision
+    (what a conforming engine computes); None if the expression leaves the subset"""
+    from .. import model as M
+    if isinstance(e, M.Lit):
+        return f32(e.value) if e.ty == ("s", "float") else e.value
+    if isinstance(e, M.Var):
+        v = env[e.name]
+        return f32(v) if e.ty == ("s", "float") else v
+    if isinstance(e, M.Bin):
+        a, b = eval_f32(e.l, env), eval_f32(e.r, env)
+        if a is None or b is None:
+            return None
+        isf = e.l.ty == ("s", "float")
+        try:
+            if e.op == "+":
+                r = a + b
+            elif e.op == "-":
+                r = a - b
+            elif e.op == "*":
+                r = a * b
+            elif e.op == "/":
+                if isf:
+                    r = a / b
+                else:
+                    q = abs(a) // abs(b)
+                    r = q if (a < 0) == (b < 0) else -q
+            elif e.op == "==":
+                return 1 if a == b else 0
+            elif e.op == "<":
+                return 1 if a < b else 0
+            elif e.op == ">":
+                return 1 if a > b else 0
+            else:
+                return None
+        except (ZeroDivisionError, OverflowError):
+            return None
+        return f32(r) if isf else r
+    return None
+
+
 def check(ctx, case):
     src = case.source()
     ctx.count()
@@ -107,6 +148,15 @@ def check(ctx, case):
             if f.ret == ("s", "float"):
                 w32 = f32(want)
                 same = (got == w32) or (math.isnan(got) and math.isnan(w32)) or math.isclose(got, w32, rel_tol=1e-6, abs_tol=1e-30)
+                if not same and case.kind == "subset":
+                    # cancellation can amplify the rounding of intermediate results beyond 1e-6 of the final
+                    # value: "to single precision" then means the value obtained when every operation of the
+                    # source expression is rounded to f32, which a conforming engine must hit exactly
+                    ret_stmt = f.body.stmts[-1]
+                    exact32 = eval_f32(ret_stmt.e, args) if hasattr(ret_stmt, "e") else None
+                    if exact32 is not None and got == exact32:
+                        same = True
+                        ctx.label("float-agreement-by-stepwise-f32-evaluation")
             elif f.ret == ("s", "uint"):
                 same = (got & 0xFFFFFFFF) == want
             else:
